@@ -287,6 +287,22 @@ func c19Scenarios(tier string) []*Scenario {
 				PC{Name: "b", Lines: []string{"environment:", "  - 'K=1'"}})
 			sc.Procs = map[string]*ProcScript{"a": {OnTerm: "ignore"}, "b": {}, "c": {}}
 			sc.TickBudget = 1
+			// the same request for a process that has no command at the moment: pending on a dependency that
+			// keeps running, or waiting out its restart back-off
+			mk([]int{i})
+			sp := scs[len(scs)-1]
+			sp.ID += "-pending"
+			sp.YAML = projectYAML([]string{"vars:", "  N: 7"}, PC{Name: "a", Restart: "no", Deps: map[string]string{"b": "process_completed"}},
+				PC{Name: "b", Lines: []string{"environment:", "  - 'K=1'"}})
+			sp.API[0][0].When = func(w *World) bool { return w.launches["b#0"] > 0 }
+			mk([]int{i})
+			sb := scs[len(scs)-1]
+			sb.ID += "-backoff"
+			sb.YAML = projectYAML([]string{"vars:", "  N: 7"}, PC{Name: "a", Restart: "always", Backoff: 5},
+				PC{Name: "b", Lines: []string{"environment:", "  - 'K=1'"}})
+			sb.Procs = map[string]*ProcScript{"a": {Launches: [][]Action{{Exit(1)}, {}}}, "b": {}, "c": {}}
+			sb.API[0][0].When = func(w *World) bool { return w.lastStat["a"] == "Restarting" }
+			sb.TickBudget = 1
 		}
 	}
 	// length 2: a state-changing request followed by any request (quick: a selection)
